@@ -458,3 +458,24 @@ def length_factor_family():
                 yield {"name": f"length-factors ws={ws} ranges={ranges} factors={factors} k={k}",
                        "args": dict(G=G, flow_attr="flow", k=k, weight_type=int, path_length_ranges=list(ranges), path_length_factors=list(factors)),
                        "width": 3, "mpe_opt": F(0)}
+
+
+def guarded(ctx, cls, label, fn):
+    """Evaluate one instance; an exception raised while doing so (an unexpected number of routes, a missing key, a None field, an
+    exception of the implementation that is not a documented ValueError ...) becomes a CONCRETE report naming the instance and the
+    exception, and the run continues with the next instance.  `fn(cur)` stores the arguments it works on in cur['args']."""
+    import traceback
+    cur = {}
+    try:
+        fn(cur)
+    except Exception as e:
+        tb = traceback.format_exc()
+        a = cur.get("args")
+        try:
+            desc = describe(a) if a is not None else None
+        except Exception:
+            desc = str(a)[:800]
+        ctx.report(f"{cls}: {type(e).__name__} {e!r} while evaluating instance {label}"
+                   + ("" if a is None else f" (k={a.get('k')}, given weights={a.get('solution_weights_superset')})"),
+                   {"class": cls, "instance": label, "args": desc, "exception": repr(e), "traceback": tb[-1800:]})
+        ctx.count("guard", "exceptions_while_evaluating_an_instance")
